@@ -64,7 +64,15 @@ def evalLineV (line : String) : Verdict × UInt64 :=
       if impl == "hang" then
         { model := "", mi := false, si := false, tag := "hang", trivial := false,
           note := "the implementation did not return within the case time limit" }
-      else dispatch prop op args impl
+      else
+        let v := dispatch prop op args impl
+        -- a panic where the property's driver expects a value (it could not read the output): the property
+        -- promises a result there, so this is a violation with this input, not a protocol error
+        -- (drivers of properties that speak about panics - C05, C07, C08, C09 - read `panic:` themselves)
+        if v.note.startsWith "driver-bad-input" && impl.startsWith "panic" then
+          { model := "", mi := false, si := false, tag := "panic", trivial := false,
+            note := "the implementation panicked (" ++ impl ++ ") where the property promises a result" }
+        else v
     | _ => badInput "short line"
   (v, fnv line)
 
